@@ -50,6 +50,51 @@ var c20Templates = []string{
 	"{% tablerow i in l cols: 1 %}{% for j in l %}{{ j }}{% endfor %}{% endtablerow %}",
 }
 
+// c20Skeletons: every subset of hyphen positions of a few block skeletons (the trim writer holds
+// the last write back, so where a writer failure surfaces depends on the markers around it).
+var c20Skeletons = [][]string{
+	{"p ", "{%", " if x ", "%}", " a ", "{{", " x ", "}}", " b ", "{%", " endif ", "%}", " q"},
+	{"", "{%", " for i in l ", "%}", " ", "{{", " i ", "}}", " ", "{%", " endfor ", "%}", "."},
+	{"", "{%", " if x ", "%}", "", "{%", " raw ", "%}", " r ", "{%", " endraw ", "%}", "", "{%", " endif ", "%}", "z"},
+	{"", "{%", " capture c ", "%}", " a ", "{{", " x ", "}}", " ", "{%", " endcapture ", "%}", "[", "{{", " c ", "}}", "]"},
+	{"", "{%", " unless y ", "%}", "", "{{", " x ", "}}", "", "{%", " else ", "%}", "n", "{%", " endunless ", "%}", ""},
+	{"", "{%", " tablerow i in l cols: 2 ", "%}", " ", "{{", " i ", "}}", "", "{%", " endtablerow ", "%}", ""},
+}
+
+func c20AllTemplates() []string {
+	out := append([]string{}, c20Templates...)
+	for _, sk := range c20Skeletons {
+		// hyphen positions: after every opening and before every closing delimiter
+		var pos []int
+		for i, p := range sk {
+			if p == "{%" || p == "{{" || p == "%}" || p == "}}" {
+				pos = append(pos, i)
+			}
+		}
+		for mask := 1; mask < 1<<uint(len(pos)); mask++ {
+			var sb strings.Builder
+			k := 0
+			for i, p := range sk {
+				isDelim := k < len(pos) && pos[k] == i
+				if isDelim && (p == "%}" || p == "}}") && mask&(1<<uint(k)) != 0 {
+					sb.WriteString("-")
+				}
+				sb.WriteString(p)
+				if isDelim && (p == "{%" || p == "{{") && mask&(1<<uint(k)) != 0 {
+					sb.WriteString("-")
+				}
+				if isDelim {
+					k++
+				}
+			}
+			out = append(out, sb.String())
+		}
+	}
+	return out
+}
+
+var c20All []string
+
 func c20Engine() *liquid.Engine {
 	e := liquid.NewEngine()
 	e.RegisterTag("mytag", func(c render.Context) (string, error) { return "TAG", nil })
@@ -141,8 +186,11 @@ func c20Build(tier string) []c20Case {
 	}
 	eng := c20Engine()
 	var out []c20Case
-	c20.clean = make([]string, len(c20Templates))
-	for t, src := range c20Templates {
+	if c20All == nil {
+		c20All = c20AllTemplates()
+	}
+	c20.clean = make([]string, len(c20All))
+	for t, src := range c20All {
 		rw := &recWriter{}
 		if err := eng.ParseAndFRender(rw, []byte(src), c20Bind()); err != nil {
 			panic("harness: fault-free render fails: " + src + ": " + err.Error())
@@ -151,6 +199,14 @@ func c20Build(tier string) []c20Case {
 		for k, L := range rw.sizes {
 			var accepts []int
 			accepts = append(accepts, 0)
+			if t >= len(c20Templates) {
+				// generated skeletons: the plain failure is enough at every index
+				out = append(out, c20Case{t, k, 0, false, true, 0}, c20Case{t, k, 0, false, false, 1})
+				if L > 1 {
+					out = append(out, c20Case{t, k, L / 2, false, true, 0})
+				}
+				continue
+			}
 			if L <= 8 || tier == "thorough" && L <= 64 {
 				for p := 1; p < L; p++ {
 					accepts = append(accepts, p)
@@ -181,7 +237,7 @@ func c20Families(tier string) []explore.Family {
 	cases := c20Build(tier)
 	return []explore.Family{{Name: "fault-points", Count: int64(len(cases)), Run: func(i int64, r *explore.Rec) {
 		c := cases[i]
-		src := c20Templates[c.t]
+		src := c20All[c.t]
 		fw := &faultWriter{k: c.k, accept: c.accept, nilErr: c.nilErr, forever: c.forever, failedAt: -1}
 		desc := func() any {
 			return map[string]any{"template": trunc80(src), "failing_write_call": c.k, "bytes_accepted_of_that_call": c.accept, "short_write_without_error": c.nilErr,
@@ -204,7 +260,11 @@ func c20Families(tier string) []explore.Family {
 		if c.nilErr {
 			kind = "short-write"
 		}
-		r.Class(fmt.Sprintf("t%d/%s/accept%v", c.t, kind, c.accept > 0))
+		if c.t < len(c20Templates) {
+			r.Class(fmt.Sprintf("t%d/%s/accept%v", c.t, kind, c.accept > 0))
+		} else {
+			r.Class(fmt.Sprintf("skeleton/%s/accept%v", kind, c.accept > 0))
+		}
 		if p != nil {
 			r.Violation(p.Key(), desc(), "a SourceError carrying the writer's failure", "panic: "+p.Value)
 			return
@@ -241,7 +301,7 @@ func init() {
 	explore.Register(&explore.Prop{
 		ID:    "C20",
 		Level: "fault_enumeration",
-		Rule: "30 templates covering every tag (incl. tablerow, include, capture, nested loops, cycle, registered tag and block), trim-marker placements, empty output and long text; a fault-free render records the W Write calls and their sizes; then for EVERY k in 0..W-1 the writer fails on call k accepting 0 bytes or a strict prefix (all prefix lengths for calls <=8 bytes (quick) / <=64 (thorough), else 1, len/2, len-1), failing once or forever, through FRender and ParseAndFRender; plus short writes with a nil error (totality only); " +
+		Rule: "every subset of hyphen positions of 6 block skeletons (if, for, raw inside if, capture, unless/else, tablerow: ~1000 templates) and 30 templates covering every tag (incl. tablerow, include, capture, nested loops, cycle, registered tag and block), trim-marker placements, empty output and long text; a fault-free render records the W Write calls and their sizes; then for EVERY k in 0..W-1 the writer fails on call k accepting 0 bytes or a strict prefix (all prefix lengths for calls <=8 bytes (quick) / <=64 (thorough), else 1, len/2, len-1), failing once or forever, through FRender and ParseAndFRender; plus short writes with a nil error (totality only); " +
 			"class = (template, fault kind, partial accept); distinct_nontrivial counts distinct classes",
 		Assumptions: []string{"a writer that returns n < len(p) with a nil error violates io.Writer; only absence of a panic is required there"},
 		Setup:       func(tier string) { c20.eng = c20Engine(); c20Build(tier) },
